@@ -131,7 +131,7 @@ fn check_cmd(args: &[String]) -> i32 {
     "C17" => {
       CheckSpec {
         property: property.clone(), world: "W5".into(), tier: tier.clone(), seed, level: "exploration".into(),
-        rule: "W5 state-machine world: one real Interpreter per run (fresh thread, PRNG-chosen hash seed, trace on) given a generated machine — either an array-pattern machine (a Scan state over a [u64] vector with pair, head/rest and empty-vector arms, with and without guards, consuming or not), a general array-pattern machine (2-7 ordered arms over the Scan state, each with an empty / exact-length / `| rest` / `…` spread pattern with prefix and suffix elements, repeated names meaning equality, literal elements, optional guards with fall-through to later arms, targets that rebuild the vector from the bound names) or 1-4 states, 1-3 u64 payload fields, per state a direct transition or 1-4 guarded branches (comparisons of fields with constants or other fields, several of which may hold at once, usually a final wildcard), payload updates (field, constant, field +/- constant, field +/- field), self-loops and cycles, inputs from {0,1,2,3,4,5,7,10} — and 2-5 invocations in the same session, each with a PRNG-chosen transition budget (Interpreter.max_steps in {1,2,3,5,8,13,30,100,1000}). Ill-formed variants: a transition to an undeclared state, a transition to a declared state that has no arm, an argument of the wrong kind, a wrong argument count. Oracle: a reference simulation of the transition system (checked u64 arithmetic, cycle detection): result value, the sequence of (state, payload) parsed from the recorded [trace][fsm][step] events, the limit error for machines that never terminate (bounded liveness in steps), rejection of every ill-formed variant, and the next invocation after a failed or limited one is checked like any other; an invocation that has not answered after 8 s of wall clock (a run takes milliseconds) is reported as a machine that was not stopped, provided the replay in a fresh process exceeds the bound again. A run is non-trivial if at least one well-formed invocation terminated within its budget or was stopped by the limit; distinct = digest over machine text, invocations, budgets and outcomes.".into(),
+        rule: "W5 state-machine world: one real Interpreter per run (fresh thread, PRNG-chosen hash seed, trace on) given a generated machine — either an array-pattern machine (a Scan state over a [u64] vector with pair, head/rest and empty-vector arms, with and without guards, consuming or not), a general array-pattern machine (2-7 ordered arms over the Scan state, each with an empty / exact-length / `| rest` / `…` spread pattern with prefix and suffix elements, repeated names meaning equality, literal elements, optional guards with fall-through to later arms, targets that rebuild the vector from the bound names) or 1-4 states, 1-3 u64 payload fields, per state a direct transition or 1-4 guarded branches (comparisons of fields with constants or other fields, several of which may hold at once, usually a final wildcard), payload updates (field, constant, field +/- constant, field +/- field), self-loops and cycles, inputs from {0,1,2,3,4,5,7,10} — and 2-5 invocations in the same session, each with a PRNG-chosen transition budget (Interpreter.max_steps in {1,2,3,5,8,13,30,100,1000}). Ill-formed variants: a transition to an undeclared state, a transition to a declared state that has no arm, a state (possibly the start state) that has an arm but is left out of the specification, an output arm of another kind than declared, an argument of the wrong kind, a wrong argument count, and — for array machines whose input is declared with a sized kind `[u64]:1,N` — a vector of another length or a column vector. Oracle: a reference simulation of the transition system (checked u64 arithmetic, cycle detection): result value, the sequence of (state, payload) parsed from the recorded [trace][fsm][step] events, the limit error for machines that never terminate (bounded liveness in steps), rejection of every ill-formed variant, and the next invocation after a failed or limited one is checked like any other; an invocation that has not answered after 8 s of wall clock (a run takes milliseconds) is reported as a machine that was not stopped, provided the replay in a fresh process exceeds the bound again. A run is non-trivial if at least one well-formed invocation terminated within its budget or was stopped by the limit; distinct = digest over machine text, invocations, budgets and outcomes.".into(),
         worker_args: vec!["worker".into(), "--world".into(), "W5".into(), "--seed".into(), seed.to_string()],
         runs: if thorough { 600_000 } else { 40_000 },
         budget: Duration::from_secs(if thorough { 480 } else { 50 }),
@@ -155,7 +155,7 @@ fn check_cmd(args: &[String]) -> i32 {
       let corpus_len = corpus::load().len() as u64;
       CheckSpec {
         property: property.clone(), world: "W2".into(), tier: tier.clone(), seed, level: "exploration".into(),
-        rule: format!("W2 replica world: 2-3 real Interpreters per run, each on its own thread with its own PRNG-chosen hash seed (so HashMap/IndexMap iteration orders differ between replicas), fed the same program and then step requests; the PRNG decides which replica executes its next command (commands of different replicas interleave inside one host process, exactly one runs at a time), how each replica's total of 0-12 steps is decomposed (one request for n, n single steps, a random composition, requests for zero steps) and the per-replica profile/trace knobs. Programs: the {} snippets harvested at run time from /repo/tests/*.rs plus the sampler (the first runs walk the corpus in order), and programs generated by W1's generator with and without mutation statements. Oracle after every command: replicas that executed the same total number of steps hold equal symbol tables and returned equal results; interpret() outcomes agree; a program whose text certainly contains no assignment/op-assignment is left exactly as interpret left it. A run is non-trivial if interpret succeeded and at least one step was executed; distinct = digest over program, schedule and every replica's outcomes/store digests.", corpus_len),
+        rule: format!("W2 replica world: 2-3 real Interpreters per run, each on its own thread with its own PRNG-chosen hash seed (so HashMap/IndexMap iteration orders differ between replicas), fed the same program and then step requests; the PRNG decides which replica executes its next command (commands of different replicas interleave inside one host process, exactly one runs at a time), how each replica's total of 0-12 steps is decomposed (one request for n, n single steps, a random composition, requests for zero steps) and the per-replica profile/trace knobs; per run Interpreter.max_steps may be set to 1-5 (it must not bound step requests; only for programs without a state-machine invocation); a third of the replicas of generated programs get the text line by line, one interpret() per line, as a REPL does; in a third of the runs a second phase follows in which every replica executes the same 1-3 requests for ONE plan element (step(id,n), n split differently per replica, sometimes an id beyond the plan) and stores and answers are compared after each request. Programs: the {} snippets harvested at run time from /repo/tests/*.rs plus the sampler (the first runs walk the corpus in order), and programs generated by W1's generator with and without mutation statements, assignment templates, relational programs (joins, set algebra over random id sets) and hash-order programs (several enums sharing a variant name, wide records and maps). Oracle after every command: replicas that executed the same total number of steps hold equal symbol tables and returned equal results; interpret() outcomes agree; a program whose text certainly contains no assignment/op-assignment is left exactly as interpret left it. A run is non-trivial if interpret succeeded and at least one step was executed; distinct = digest over program, schedule and every replica's outcomes/store digests.", corpus_len),
         worker_args: vec!["worker".into(), "--world".into(), "W2".into(), "--seed".into(), seed.to_string()],
         runs: if thorough { 600_000 } else { corpus_len + 40_000 },
         budget: Duration::from_secs(if thorough { 600 } else { 55 }),
@@ -180,7 +180,7 @@ fn check_cmd(args: &[String]) -> i32 {
       if thorough { wa.push("--thorough".into()); }
       CheckSpec {
         property: property.clone(), world: "W3".into(), tier: tier.clone(), seed, level: "fault_enumeration".into(),
-        rule: format!("W3 bytecode pipeline: producer node (real Interpreter: interpret + compile) -> storage medium owned by the simulator (byte vector; 1 run in 8 also through a real file and load_program_from_file) -> consumer node (fresh thread, other hash seed: ParsedProgram::from_bytes, decode_const_entries). Corpus: {} programs (every snippet harvested at run time from /repo/tests/interpreter.rs and tests/bytecode.rs plus an operator/kind/shape sampler); the first runs walk the corpus in order, from run 24 on interleaved 3:1 with generated programs (literal-only programs with every constant class and variable-width elements — strings of differing byte lengths and multi-byte characters in matrices, sets, records, tables, maps —, W1 sessions batched into one text, assignment templates, relational programs); after the walk half of the runs are generated. Per emitted file: configuration 0/1 (loader accepts it, to_bytes(from_bytes(b)) == b, decoded header/constants/instructions/features/types equal the compiler's CompileCtx field by field) and then storage faults: truncation (t), single bit flips (b), bursts of 2-32 bits (u) must be rejected; zeroed/0xFF/misdirected sectors (z), appended/duplicated regions (a), random byte strings incl. real header prefixes (r), structure-aware single-field boundary values with the checksum recomputed (s) and random patches with the checksum recomputed (c) must never panic, hang or allocate more than 64 MiB + 64 x file length (counting allocator; hard cap turns it into a worker death attributed to the run). {} Read-time faults (i, hook H1 `verif_load_program_from_reader`): 24-63 loads per run through the simulator's reader — short reads (1..n bytes per call), EINTR on every n-th call, EIO at the k-th read, a failing k-th seek, end-of-file before the declared length, and a medium that starts serving other (structurally mutated) bytes after n calls; a third of the benign plans ride on a damaged file. Short reads and EINTR must not change the answer (same program or same error kind as from_bytes on the same bytes); hard faults may only fail the load or leave it identical; nothing may panic, exceed the read-call budget or the allocation limit. Runs that go through a real file additionally write 24 damaged files to tmpfs and demand that load_program_from_file answers exactly like from_bytes (f). A run is non-trivial if a file was emitted and damaged files were fed; distinct = digest over program, fault sequence and loader outcomes.", corpus_len, if thorough { "Thorough tier: t and b are enumerated completely (every length, every bit) for every emitted file of the corpus; the other kinds are seeded samples." } else { "Quick tier: t and b are enumerated completely for the first 24 corpus programs; otherwise all kinds are seeded samples (150-400 per run)." }),
+        rule: format!("W3 bytecode pipeline: producer node (real Interpreter: interpret + compile) -> storage medium owned by the simulator (byte vector; 1 run in 8 also through a real file and load_program_from_file) -> consumer node (fresh thread, other hash seed: ParsedProgram::from_bytes, decode_const_entries). Corpus: {} programs (every snippet harvested at run time from /repo/tests/interpreter.rs and tests/bytecode.rs plus an operator/kind/shape sampler); the first runs walk the corpus in order, from run 24 on interleaved 3:1 with generated programs (literal-only programs with every constant class and variable-width elements — strings of differing byte lengths and multi-byte characters in matrices, sets, records, tables, maps —, W1 sessions batched into one text, assignment templates, relational programs); after the walk half of the runs are generated. Per emitted file: configuration 0/1 (loader accepts it, to_bytes(from_bytes(b)) == b, decoded header/constants/instructions/features/types equal the compiler's CompileCtx field by field) and then storage faults: truncation (t), single bit flips (b), bursts of 2-32 bits (u) must be rejected; zeroed/0xFF/misdirected sectors (z), appended/duplicated regions (a), random byte strings incl. real header prefixes (r), structure-aware single-field boundary values with the checksum recomputed (s) and random patches with the checksum recomputed (c) must never panic, hang or allocate more than 64 MiB + 64 x file length (counting allocator; hard cap turns it into a worker death attributed to the run), nor burn more than 3 s (+20 ms per KiB) of thread CPU time on one file (CLOCK_THREAD_CPUTIME_ID, not wall clock: a loop whose length comes from a field of the file); structure-aware mutations include both leading words of a constant together (rows x columns: zero times huge). One nesting bomb per file (n): a constant re-typed as set/table and pointed at 2 000-120 000 bytes of nested kind tags (matrix-of, set-of, table-with-one-column-of) appended to the blob, checksum valid, fed on a thread with an 8 MiB stack — unbounded recursion shows as a dead worker that the supervisor attributes and confirms. {} Read-time faults (i, hook H1 `verif_load_program_from_reader`): 24-63 loads per run through the simulator's reader — short reads (1..n bytes per call), EINTR on every n-th call, EIO at the k-th read, a failing k-th seek, end-of-file before the declared length, and a medium that starts serving other (structurally mutated) bytes after n calls; a third of the benign plans ride on a damaged file. Short reads and EINTR must not change the answer (same program or same error kind as from_bytes on the same bytes); hard faults may only fail the load or leave it identical; nothing may panic, exceed the read-call budget or the allocation limit. Runs that go through a real file additionally write 24 damaged files to tmpfs and demand that load_program_from_file answers exactly like from_bytes (f). A run is non-trivial if a file was emitted and damaged files were fed; distinct = digest over program, fault sequence and loader outcomes.", corpus_len, if thorough { "Thorough tier: t and b are enumerated completely (every length, every bit) for every emitted file of the corpus; the other kinds are seeded samples." } else { "Quick tier: t and b are enumerated completely for the first 24 corpus programs; otherwise all kinds are seeded samples (150-400 per run)." }),
         worker_args: wa,
         runs: if thorough { corpus_len * 4 / 3 + 60_000 } else { corpus_len * 4 / 3 + 40_000 },
         budget: Duration::from_secs(if thorough { 900 } else { 55 }),
